@@ -98,6 +98,10 @@ func (c04) RunBatch(ctx *core.Ctx, batch int) {
 				ctx.Count("edge_number_trees", 1)
 			}
 		}
+		for _, t := range qt.RelationTrees() {
+			c04Tree(ctx, t, 1, false)
+			ctx.Count("relation_trees", 1)
+		}
 		// the quoted star as a range bound (a class of its own, see KNOWN_FINDINGS)
 		for _, t := range []*qt.Node{qt.Range("s", qt.Phrase("*"), qt.Word("zz"), true), qt.Range("s", qt.Word("aa"), qt.Phrase("*"), false), qt.Range("n", qt.Phrase("*"), qt.Int(5), true)} {
 			c04Tree(ctx, t, 0, true)
@@ -165,6 +169,13 @@ func (c04) RunBatch(ctx *core.Ctx, batch int) {
 // valueSlots returns pointers to the value positions of a tree in left-to-right order
 // (unbounded range ends are not values) and a description of each position.
 func valueSlots(n *qt.Node) (slots []*qt.Value, where []string) {
+	// a single term in parentheses behind a field is that field's value (f:(w*) is f:w*)
+	groupValue := map[*qt.Node]bool{}
+	n.Walk(func(x *qt.Node) {
+		if x.Kind == qt.KGroup && x.Kids[0].Kind == qt.KTerm {
+			groupValue[x.Kids[0]] = true
+		}
+	})
 	n.Walk(func(x *qt.Node) {
 		if x.Kind >= qt.KField && x.Kind <= qt.KList && x.Field.IsNum() {
 			// a number in field position is not a column: it is rendered as a value
@@ -172,7 +183,11 @@ func valueSlots(n *qt.Node) (slots []*qt.Value, where []string) {
 		}
 		switch x.Kind {
 		case qt.KTerm:
-			slots, where = append(slots, &x.Val), append(where, "term")
+			if groupValue[x] {
+				slots, where = append(slots, &x.Val), append(where, "field-value")
+			} else {
+				slots, where = append(slots, &x.Val), append(where, "term")
+			}
 		case qt.KField:
 			slots, where = append(slots, &x.Val), append(where, "field-value")
 		case qt.KCmp:
